@@ -44,10 +44,10 @@ def replay(case):
         elif out['kind'] == 'nan':
             ok = not inr
         elif out['kind'] == 'fin':
-            ok = out['sign'] is False and ((out['D'] == R and bool(out['inexact']) == bool(d['inexact'])) if inr else out['D'] in (lo, hi))
+            ok = out['sign'] is False and ((out['D'] == R and bool(out['inexact']) == bool(d['inexact'])) if inr else ((out['D'] == hi and out['inexact'] and out['overflow']) if R > hi else (out['D'] == lo and out['inexact'])))
         else:
             ok = False
-        return {'violates': not ok, 'observed': _pub(out), 'key': 'exp:' + ('in-range' if inr else 'out-of-range'), 'operand': '%d*2^%d' % (c, exp), 'context': repr(ctx)}
+        return {'violates': not ok, 'observed': _pub(out), 'key': 'exp:' + ('in-range' if inr else ('above-range' if R > hi else 'below-range')), 'operand': '%d*2^%d' % (c, exp), 'context': repr(ctx)}
     c = inp['c']; exp = inp.get('exp', 0)
     if t['kind'] == 'kernel':
         p = inp.get('p'); n = inp.get('n')
